@@ -500,6 +500,8 @@ def run_reuse(ctx, n):
 
 
 def replay(ctx, case):
+    if case.get("huge"):
+        return check_valid_huge(ctx, case)
     if "scales" in case:
         return check_valid_dataset(ctx, case)
     if "sizes" in case:
@@ -620,6 +622,53 @@ def check_valid_dataset(ctx, case):
         ctx.rmtree(d)
 
 
+def check_valid_huge(ctx, case):
+    """A valid compressed_segmentation channel of more than 16 MiB (lookup
+    tables beyond 2**22 words): decoded exactly."""
+    from neuroglancer_scripts.chunk_encoding import \
+        CompressedSegmentationEncoder
+    nb, side = case["blocks"], 64
+    vox = side ** 3
+    chunk = np.empty((1, side * nb, side, side), dtype="<u8")
+    for b in range(nb):
+        chunk[0, b * side:(b + 1) * side] = (
+            np.arange(vox, dtype=np.uint64) * np.uint64(3) + np.uint64(
+                b * vox + case["seed"] % 1000)).reshape(side, side, side)
+    enc = CompressedSegmentationEncoder("uint64", 1, [side] * 3)
+    buf = bytes(enc.encode(chunk))
+    # (the encoder's output for such channels is checked against the format
+    # description by C02 huge_channel; here: a few corners as a precondition)
+    for b in (0, nb - 1):
+        ref = cseg_spec.decode_corner(buf, chunk.shape, [side] * 3, "<u8",
+                                      b, 2)
+        if not np.array_equal(ref, chunk[0, b * side:b * side + 2, :2, :2]):
+            raise AssertionError("harness: the input file is not valid")
+    try:
+        got = enc.decode(buf, (side, side, side * nb))
+    except Exception as exc:
+        ctx.fail("valid %d MiB compressed_segmentation channel rejected: %s "
+                 "%s" % (len(buf) >> 20, type(exc).__name__, exc))
+    if got.shape != chunk.shape or not np.array_equal(got, chunk):
+        bad = np.argwhere(got != chunk)
+        ctx.fail("valid %d MiB compressed_segmentation channel decoded to "
+                 "other labels (%d voxels, first at %s)" % (
+                     len(buf) >> 20, len(bad), bad[0].tolist()))
+
+
+def run_valid_huge(ctx, n):
+    for k in range(max(1, n)):
+        case = {"blocks": 8 + 2 * k, "huge": True, "seed": ctx.seed + k}
+        try:
+            check_valid_huge(ctx, case)
+        except AssertionError as exc:
+            if type(exc).__name__ != "Violation":
+                raise
+            ctx.violations.append({"sub": "valid_huge", "case": case,
+                                   "message": str(exc)})
+            break
+        ctx.record(case, True, ["blocks%d" % case["blocks"]])
+
+
 def run_valid_dataset(ctx, n):
     def check(ctx, case):
         check_valid_dataset(ctx, case)
@@ -637,6 +686,7 @@ SUBS = [
     Sub("valid_large", run_valid_large, replay, quick=24, thorough=800,
         shards=6),
     Sub("valid_dataset", run_valid_dataset, replay, quick=150, thorough=6000),
+    Sub("valid_huge", run_valid_huge, replay, quick=1, thorough=3, shards=1),
     Sub("codec_reuse", run_reuse, replay, quick=800, thorough=40000),
     Sub("atheris", run_atheris, replay, quick=30000, thorough=120,
         serial=True),
